@@ -71,7 +71,8 @@ def on_quiescent(h: Any) -> None:
         d = hd.ctx.to_dict()
         for name, ws in r.state.workers.items():
             sw = d["workers"][name]
-            if len(sw["queue"]) != len(ws.queue) or len(sw["in_progress"]) != len(ws.in_progress) \
+            # pending work may be serialized as queued or as in-progress entries: compare the total
+            if len(sw["queue"]) + len(sw["in_progress"]) != len(ws.queue) + len(ws.in_progress) \
                     or len(sw["collected_waiters"]) != len(ws.collected_waiters) \
                     or {k: len(v) for k, v in sw["collected_events"].items()} != {k: len(v) for k, v in ws.collected_events.items()}:
                 h.violate("to_dict_differs_from_live", {"step_kind": name.rstrip("0123456789")},
